@@ -29,7 +29,11 @@ package transport
 // have generated ..."). The report is kept per reference name: an outcome
 // that was applied (nil) is never replaced by the outcome of another command
 // for the same name -- a further command for a name that already has an
-// outcome is refused without touching it (`kept`).
+// outcome is refused without touching it (`kept`). An existing reference is
+// moved with the storage's compare-and-swap against the client's old value,
+// in one step; the unconditional SetReference is for creations only
+// (`createonly`, `atomic`): with a check and a separate write, two pushes
+// made against the same old value are both accepted and one is lost.
 //gvc:func updateReferences
 //gvc:  props C39
 //gvc:  theory int
@@ -39,6 +43,10 @@ package transport
 //gvc:  loop 1 invariant nn: firstErr != nil
 //gvc:  sink SetReference requires cas: ite(forall(k, 0, 32, cmd.Old.hash[k] == 0), st.#refs[strid(cmd.Name)] == 0, st.#refs[strid(cmd.Name)] != 0 && forall(k, 0, 32, field(st.#refs[strid(cmd.Name)], "plumbing.Reference.h").hash[k] == cmd.Old.hash[k]))
 //gvc:  sink SetReference requires name: strid(ref.n) == strid(cmd.Name) && ref.h == cmd.New
+//gvc:  sink SetReference requires createonly: forall(k, 0, 32, cmd.Old.hash[k] == 0)
+//gvc:  sink CheckAndSetReference requires atomic: arg1 != nil && strid(arg1.n) == strid(cmd.Name) && forall(k, 0, 32, arg1.h.hash[k] == cmd.Old.hash[k])
+//gvc:  sink CheckAndSetReference requires name: strid(arg0.n) == strid(cmd.Name) && arg0.h == cmd.New
+//gvc:  sink CheckAndSetReference requires present: st.#has[keyid(cmd.New)]
 //gvc:  sink SetReference requires present: st.#has[keyid(cmd.New)]
 //gvc:  sink setStatus requires reported: arg3 == nil ==> ite(forall(k, 0, 32, cmd.New.hash[k] == 0), st.#refs[strid(cmd.Name)] == 0, st.#refs[strid(cmd.Name)] != 0 && field(st.#refs[strid(cmd.Name)], "plumbing.Reference.h") == cmd.New)
 //gvc:  sink setStatus requires kept: has(arg0, arg2) ==> arg0[arg2] != nil
